@@ -18,6 +18,9 @@ from . import contract as C, smt, loader
 from .values import Unsupported
 
 ROOT = os.path.dirname(os.path.dirname(os.path.abspath(__file__)))
+# evidence/ and replays/ live in /verif; runs against a scratch copy of the repository (VERIF_REPO, used only to try
+# seeded changes) write elsewhere so that committed evidence always comes from /repo itself
+OUT = os.environ.get("VERIF_OUT") or (ROOT if not os.environ.get("VERIF_REPO") else "/tmp/verif_seed_out")
 
 
 def pmap(fn, items, jobs=None):
@@ -214,15 +217,15 @@ class Check:
                     printed_known.add(tag)
                 continue
             violations.append(f)
-        os.makedirs(os.path.join(ROOT, "replays", self.prop), exist_ok=True)
-        os.makedirs(os.path.join(ROOT, "evidence"), exist_ok=True)
+        os.makedirs(os.path.join(OUT, "replays", self.prop), exist_ok=True)
+        os.makedirs(os.path.join(OUT, "evidence"), exist_ok=True)
         seen = set()
         for f in violations:
             if f.key in seen:
                 continue
             seen.add(f.key)
             fn = "".join(ch if ch.isalnum() or ch in "._-" else "_" for ch in str(f.key))[:120] + ".json"
-            path = os.path.join(ROOT, "replays", self.prop, fn)
+            path = os.path.join(OUT, "replays", self.prop, fn)
             d = f.as_dict()
             d["obligations_failed_or_undecided_in_this_run"] = [
                 {"obligation": o.oid, "result": o.result, "solver": o.solver, "model": o.model, "reason": o.note[:200]}
@@ -230,7 +233,7 @@ class Check:
             with open(path, "w") as fh:
                 json.dump(d, fh, indent=1, default=str)
             tail = "" if f.replayed else " no-failing-input-found"
-            print(f"VIOLATION property={self.prop} replay={os.path.relpath(path, ROOT)}{tail}")
+            print(f"VIOLATION property={self.prop} replay={os.path.relpath(path, OUT) if OUT == ROOT else path}{tail}")
         n_ob = len([o for o in self.obligations if o.expect == "unsat"])
         n_ok = len([o for o in self.obligations if o.expect == "unsat" and o.result == "PROVED"])
         undec = self.undecided_obligations()
@@ -280,7 +283,7 @@ class Check:
             "assumptions": sorted(set(self.assumptions)), "wall_s": round(time.time() - self.t0, 2),
             "violations": len(seen),
         }
-        with open(os.path.join(ROOT, "evidence", f"{self.prop}.json"), "w") as fh:
+        with open(os.path.join(OUT, "evidence", f"{self.prop}.json"), "w") as fh:
             json.dump(ev, fh, indent=1, default=str)
         print(f"[{self.prop}] tier={self.tier} obligations={n_ob} discharged={n_ok} undecided={len(undec)} "
               f"unsupported={len(self.unsupported)} bounded_evals={evals} violations={len(seen)} wall={ev['wall_s']}s")
